@@ -299,7 +299,8 @@ class Gen:
 
 
 # ----------------------------------------------------------------- running a batch
-INPUTS = ["U", "i7", "(L (P na i1) (P nb (L i2 i3)))", "(L i1 (L i2 i3) (P na i4) C[61])", "(P na i5)"]
+INPUTS = ["U", "i7", "(L (P na i1) (P nb (L i2 i3)))", "(L i1 (L i2 i3) (P na i4) C[61])", "(P na i5)",
+          "(L U (P na i4) U (P nb i5) (P nc i6))", "(L (P nb i2) U)"]
 
 
 class Case:
